@@ -80,6 +80,8 @@ func (t *TypeT) reflectType() reflect.Type {
 			ft = reflect.TypeOf([2]string{})
 		case "spstruct":
 			ft = reflect.SliceOf(reflect.PointerTo(f.Sub.reflectType()))
+		case "imap":
+			ft = reflect.TypeOf(map[int]string{})
 		case "sany":
 			ft = reflect.TypeOf([]any{})
 		case "many":
@@ -279,7 +281,8 @@ type caseT struct {
 	AppVia int `json:",omitempty"`
 	// Variant: 1 = the options are given to validation.New (base configuration of a fresh Validator), the call
 	// passes none of them; 2 = as 1, and the call overrides a different base WithMaxErrors;
-	// 3 = partial mode through Validate(WithPartial(true), WithPresence(pm)) instead of ValidatePartial
+	// 3 = partial mode through Validate(WithPartial(true), WithPresence(pm)) instead of ValidatePartial;
+	// 4 = the value is handed over as a pointer to the pointer to the struct
 	Variant int  `json:",omitempty"`
 	Auto    bool // StrategyAuto instead of StrategyTags
 }
@@ -323,6 +326,7 @@ var tagsFor = map[string][]string{
 	"ssstring": {"", "dive,dive,min=2", "min=1,dive,max=1,dive,max=3", "dive,min=1"},
 	"astring":  {"", "dive,min=3", "dive,required", "required"},
 	"spstruct": {"", "max=1", "dive", "required,dive", "min=1", "dive,required"},
+	"imap":     {"", "max=1", "min=1", "required", "max=1,dive,min=9"},
 	"sany":     {"", "max=1", "min=1", "required", "omitempty,max=2"},
 	"many":     {"", "max=1", "min=1", "required"},
 	"sint":     {"", "dive,min=5", "max=3", "min=1,dive,max=9"},
@@ -330,7 +334,7 @@ var tagsFor = map[string][]string{
 	"map":      {"", "min=1", "required"},
 }
 
-var kinds = []string{"string", "string", "string", "int", "int", "bool", "pstring", "struct", "struct", "pstruct", "sstring", "sstring", "ssstring", "sint", "sstruct", "sstruct", "map", "sany", "many", "astring", "spstruct"}
+var kinds = []string{"string", "string", "string", "int", "int", "bool", "pstring", "struct", "struct", "pstruct", "sstring", "sstring", "ssstring", "sint", "sstruct", "sstruct", "map", "sany", "many", "astring", "spstruct", "imap"}
 
 func genType(r *hx.Rand, depth int) *TypeT {
 	return genTypeIn(r, depth, map[string]bool{}, depth < 2 && r.Chance(1, 3))
@@ -520,6 +524,13 @@ func genValue(r *hx.Rand, f FieldT, depth int) any {
 			out[hx.Pick(r, keyPool)] = secret(r, 3)
 		}
 		return out
+	case "imap":
+		n := r.Range(0, 3)
+		out := map[string]any{}
+		for i := 0; i < n; i++ {
+			out[strconv.Itoa(r.Intn(4))] = secret(r, r.Range(5, 9))
+		}
+		return out
 	case "sany":
 		// a list of whatever encoding/json makes of it: objects with secrets below an interface slot
 		n := r.Range(0, 3)
@@ -594,7 +605,7 @@ func genObject(r *hx.Rand, t *TypeT, depth int) objT {
 		}
 		o = append(o, kv{key, genValue(r, f, depth)})
 		// siblings that sort between the parent and its children
-		if (f.Kind == "struct" || f.Kind == "pstruct" || f.Kind == "sstruct" || f.Kind == "sstring" || f.Kind == "map" || f.Kind == "sany" || f.Kind == "many" || f.Kind == "spstruct" || f.Kind == "astring") && r.Chance(1, 2) {
+		if (f.Kind == "struct" || f.Kind == "pstruct" || f.Kind == "sstruct" || f.Kind == "sstring" || f.Kind == "map" || f.Kind == "sany" || f.Kind == "many" || f.Kind == "spstruct" || f.Kind == "astring" || f.Kind == "imap") && r.Chance(1, 2) {
 			for n := r.Range(1, 2); n > 0; n-- {
 				o = append(o, kv{f.JSON + hx.Pick(r, lowSuffix), genJunk(r, depth+2)})
 			}
@@ -723,9 +734,12 @@ func genCase(r *hx.Rand, tier string) caseT {
 		}
 	}
 	if !c.ViaApp && r.Chance(1, 6) {
-		c.Variant = r.Range(1, 3)
+		c.Variant = r.Range(1, 4)
 		if c.Variant == 3 && c.Mode != 0 {
 			c.Variant = 1
+		}
+		if c.Variant == 4 && c.Mode >= 2 {
+			c.Variant = 1 // the interface strategy looks for Validate() on the value it is given
 		}
 	}
 	c.Auto = r.Chance(1, 2)
@@ -1300,6 +1314,14 @@ func observe(c *caseT, rt reflect.Type, secrets []string) (o obsT) {
 			} else {
 				verr = vv.Validate(ctx, ptr.Interface(), call...)
 			}
+		case c.Variant == 4:
+			pp := reflect.New(ptr.Type())
+			pp.Elem().Set(ptr)
+			if c.Mode == 0 {
+				verr = sharedValidator.ValidatePartial(ctx, pp.Interface(), pm, opts...)
+			} else {
+				verr = sharedValidator.Validate(ctx, pp.Interface(), opts...)
+			}
 		case c.Mode == 0 && c.Variant == 3:
 			verr = sharedValidator.Validate(ctx, ptr.Interface(), append([]validation.Option{validation.WithPartial(true), validation.WithPresence(pm)}, opts...)...)
 		case c.Mode == 0 && c.Pkg:
@@ -1620,7 +1642,7 @@ func emit(id string, c caseT, st *hx.Stats) string {
 			st.Count("via_app_context_" + []string{"bind_withpartial", "bindonly_then_validate", "bind_validationoption_partial", "bind_withpresence", "second_bind_in_request", "after_another_request", "generic_bindpatch"}[c.AppVia])
 		}
 		if c.Variant != 0 {
-			st.Count("variant_" + []string{"", "base_options", "base_options_overridden", "validate_with_partial_option"}[c.Variant])
+			st.Count("variant_" + []string{"", "base_options", "base_options_overridden", "validate_with_partial_option", "pointer_to_pointer"}[c.Variant])
 		}
 		if low {
 			st.Count("low_sibling_next_to_nested")
